@@ -42,6 +42,7 @@ func RenderODT(d Doc) Rendered {
 	b.WriteString(`</office:automatic-styles><office:body><office:text>`)
 
 	bases := make([]int, len(d.Body))
+	var wrapOpen []string
 	tblNo := 0
 	for i := 0; i < len(d.Body); i++ {
 		blk := d.Body[i]
@@ -132,9 +133,34 @@ func RenderODT(d Doc) Rendered {
 				depth--
 			}
 			i = j
+		case "WO": // 5.4 text:section, 8.3 text:table-of-content: containers of ordinary text content
+			if blk.How == "section" {
+				fmt.Fprintf(&b, `<text:section text:name="Section%d">`, i)
+			} else {
+				fmt.Fprintf(&b, `<text:table-of-content text:name="Index%d"><text:table-of-content-source text:outline-level="3"/><text:index-body>`, i)
+			}
+			wrapOpen = append(wrapOpen, blk.How)
+		case "WC":
+			if wrapOpen[len(wrapOpen)-1] == "section" {
+				b.WriteString(`</text:section>`)
+			} else {
+				b.WriteString(`</text:index-body></text:table-of-content>`)
+			}
+			wrapOpen = wrapOpen[:len(wrapOpen)-1]
+		case "M":
+			switch blk.How {
+			case "softbreak":
+				b.WriteString(`<text:soft-page-break/>`)
+			case "sectionempty":
+				fmt.Fprintf(&b, `<text:section text:name="Empty%d"/>`, i)
+			case "tracked": // 5.5.1: the deleted paragraph lives here, not in the text flow
+				fmt.Fprintf(&b, `<text:tracked-changes><text:changed-region text:id="ct1"><text:deletion><office:change-info><dc:creator>verif</dc:creator><dc:date>2020-01-01T00:00:00</dc:date></office:change-info><text:p text:style-name="Standard">%s</text:p></text:deletion></text:changed-region></text:tracked-changes>`, TokText(DelTok))
+			default:
+				panic("wpw: marker " + blk.How + " is not in the ODT alphabet")
+			}
 		case "TBL":
 			tblNo++
-			odtTable(&b, blk.Tb, cnt, i, tblNo)
+			odtTable(&b, blk, cnt, i, tblNo)
 		}
 	}
 	b.WriteString(`</office:text></office:body></office:document-content>`)
@@ -219,7 +245,8 @@ func odtChildren(b *strings.Builder, blk Block, cnt *counter, idx int) {
 	}
 }
 
-func odtTable(b *strings.Builder, t Tbl, cnt *counter, blk, no int) {
+func odtTable(b *strings.Builder, tb Block, cnt *counter, blk, no int) {
+	t := tb.Tb
 	fmt.Fprintf(b, `<table:table table:name="Table%d" table:style-name="Tbl">`, no)
 	fmt.Fprintf(b, `<table:table-column table:style-name="TblCol" table:number-columns-repeated="%d"/>`, t.Cols)
 	for _, row := range Grid(t) {
@@ -240,6 +267,9 @@ func odtTable(b *strings.Builder, t Tbl, cnt *counter, blk, no int) {
 				o.Merge = "v"
 			}
 			b.WriteString(`>`)
+			if tb.How == "cellsec" { // the cell's paragraphs inside a section
+				fmt.Fprintf(b, `<text:section text:name="Cell%d_%d">`, no, cnt.n)
+			}
 			for p := 0; p < g.Np; p++ {
 				if p == 0 && g.Rich { // character data followed by a span
 					o.Rich = true
@@ -249,6 +279,9 @@ func odtTable(b *strings.Builder, t Tbl, cnt *counter, blk, no int) {
 					continue
 				}
 				fmt.Fprintf(b, `<text:p text:style-name="Standard">%s</text:p>`, TokText(cnt.next(o)))
+			}
+			if tb.How == "cellsec" {
+				b.WriteString(`</text:section>`)
 			}
 			b.WriteString(`</table:table-cell>`)
 		}
